@@ -111,7 +111,7 @@ DecNodes(b, p, len, idx, acc) ==
 DecList(b) ==
   LET ln == RdNat(b, 0, 0) IN
   IF ~ln.ok THEN [ok |-> FALSE, err |-> ln.err, p |-> ln.p, lst |-> <<>>]
-  ELSE IF 4 * ln.n > Len(b) - ln.p THEN [ok |-> FALSE, err |-> "eof", p |-> ln.p, lst |-> <<>>]
+  ELSE IF ln.n > (Len(b) - ln.p) \div 4 THEN [ok |-> FALSE, err |-> "eof", p |-> ln.p, lst |-> <<>>]
   ELSE DecNodes(b, ln.p, ln.n, 0, <<>>)
 
 (* ------------------------------ from a list to a program ------------------------------ *)
